@@ -219,6 +219,28 @@ func runC15(c *Ctx) {
 			c.Sample(p)
 		}
 	}
+	// wrappers with many unflushed entries
+	bm := sim.NewRand(c.Seed ^ hashStr("C15bulk"))
+	sizes := []int{100, 255, 256, 257, 511, 512, 513, 1000, 1023, 1024, 1025, 1500, 2047, 2048, 2049, 4096, 5000}
+	nb := len(sizes)
+	if !c.Quick() {
+		nb = 12 * len(sizes)
+	}
+	if race {
+		nb = 0
+	}
+	for i := 0; i < nb; i++ {
+		r := bm.Split(uint64(i))
+		if !c.Mine(i) {
+			continue
+		}
+		sz := sizes[i%len(sizes)]
+		if i >= len(sizes) {
+			sz += r.Intn(7) - 3
+		}
+		c.Res.Cases++
+		storechk.RunCBulk(r, sz, &caseReporter{c: c, caseID: fmt.Sprintf("bulk%d", i), replay: map[string]interface{}{"bulk": map[string]interface{}{"seed_index": i, "size": sz}}})
+	}
 	mm := sim.NewRand(c.Seed ^ hashStr("C15multi"))
 	nm := n / 10
 	for i := 0; i < nm; i++ {
@@ -282,8 +304,16 @@ func replayC15(c *Ctx, raw json.RawMessage) {
 			Ops        int    `json:"ops"`
 			Keys       int    `json:"keys"`
 		} `json:"concurrent"`
+		Bulk *struct {
+			Index int `json:"seed_index"`
+			Size  int `json:"size"`
+		} `json:"bulk"`
 	}
 	json.Unmarshal(raw, &x)
+	if x.Bulk != nil {
+		r := sim.NewRand(c.Seed ^ hashStr("C15bulk")).Split(uint64(x.Bulk.Index))
+		storechk.RunCBulk(r, x.Bulk.Size, &caseReporter{c: c, caseID: "replay", replay: raw})
+	}
 	if x.Multi != nil {
 		storechk.RunCMProg(x.Multi, &caseReporter{c: c, caseID: "replay", replay: raw})
 	}
